@@ -19,6 +19,11 @@ CONFIG_CRATES = ["tower_resilience_circuitbreaker"]
 TECHNIQUE = "static analysis of built MIR: check-then-act reservation rule (guard fields must be written on every admitted path), who-writes"
 
 
+def rkey(what):
+    """keys of the admission function's obligations name its role, not its (private) name"""
+    return "%s|<admission function of the circuit>|%s" % (CRATE, what)
+
+
 def run(facts, tr, rep):
     cb = CB(facts, tr, rep)
     if not cb.ok or cb.admission is None:
@@ -29,7 +34,7 @@ def run(facts, tr, rep):
     g = graph(a)
     sw_bb, sw = cb.state_arms(a)
     if sw is None:
-        rep.ob("C09.RESERVE", skey(a, "arms"), False, "-", "admission function does not branch on the circuit state")
+        rep.ob("C09.RESERVE", rkey("arms"), False, "-", "admission function does not branch on the circuit state")
         return
     # ---- HalfOpen arm: find the guard `E < permitted_calls_in_half_open`
     ho = sw.variants.get("HalfOpen")
@@ -75,7 +80,7 @@ def run(facts, tr, rep):
     cfields = sorted({x[2] for x in tr.walk(E) if x[0] == "field" and x[3] == cb.circuit_adt})
     rep.note("guard expression reads circuit fields %s" % cfields)
     if not cfields:
-        rep.ob("C09.RESERVE", skey(a, "halfopen-arm"), False, g.where(gi, gj), "admission guard reads no circuit counter")
+        rep.ob("C09.RESERVE", rkey("halfopen-arm"), False, g.where(gi, gj), "admission guard reads no circuit counter")
         return
 
     def incr_blocks(fields):
@@ -105,7 +110,7 @@ def run(facts, tr, rep):
         r = g.reach([st], kinds=(N,), avoid_nodes=inc)
         if any(g.term(x)["k"] == "return" for x in r) and st not in inc:
             ok = False
-    rep.ob("C09.RESERVE", skey(a, "halfopen-arm"), ok, g.where(gi, gj),
+    rep.ob("C09.RESERVE", rkey("halfopen-arm"), ok, g.where(gi, gj),
            "every admitted path of the HalfOpen arm increments a counter of the guard (%s) before returning" % cfields if ok else
            "the HalfOpen arm admits on `%s < permitted_calls_in_half_open` but no counter of the guard is incremented before "
            "returning: callers arriving while trial calls are in flight all pass the same check (no reservation)" % show(E))
@@ -121,7 +126,7 @@ def run(facts, tr, rep):
                 op_entry = sw.variants.get("Open")
                 r = g.reach([op_entry], kinds=(N,), avoid_nodes=inc)
                 ok2 = i not in r
-                rep.ob("C09.RESERVE", skey(a, "open-arm#%d" % (n - 1)), ok2, g.where(i, j),
+                rep.ob("C09.RESERVE", rkey("open-arm#%d" % (n - 1)), ok2, g.where(i, j),
                        "the call admitted on the Open->HalfOpen path is counted against the half-open budget" if ok2 else
                        "the call admitted on the Open->HalfOpen path reserves nothing: it is not counted against "
                        "permitted_calls_in_half_open")
